@@ -1,9 +1,11 @@
 package main
 
 import (
+	"bufio"
 	"bytes"
 	"errors"
 	"fmt"
+	"io"
 	"strings"
 
 	"github.com/flosch/pongo2/v6"
@@ -95,6 +97,51 @@ func (t *c14Ticker) ctx() pongo2.Context {
 			return fmt.Sprintf("t%d;", i), nil
 		}}
 }
+
+// c14RichWriter offers the optional writer interfaces of the standard library and records every call.
+type c14RichWriter struct {
+	buf   bytes.Buffer
+	calls []string
+	err   error // when set, every call fails with it
+}
+
+func (w *c14RichWriter) note(what string, n int) error {
+	w.calls = append(w.calls, fmt.Sprintf("%s(%d)", what, n))
+	return w.err
+}
+func (w *c14RichWriter) Write(p []byte) (int, error) {
+	if err := w.note("Write", len(p)); err != nil {
+		return 0, err
+	}
+	return w.buf.Write(p)
+}
+func (w *c14RichWriter) WriteString(s string) (int, error) {
+	if err := w.note("WriteString", len(s)); err != nil {
+		return 0, err
+	}
+	return w.buf.WriteString(s)
+}
+func (w *c14RichWriter) WriteByte(b byte) error {
+	if err := w.note("WriteByte", 1); err != nil {
+		return err
+	}
+	return w.buf.WriteByte(b)
+}
+func (w *c14RichWriter) WriteRune(r rune) (int, error) {
+	if err := w.note("WriteRune", 1); err != nil {
+		return 0, err
+	}
+	return w.buf.WriteRune(r)
+}
+func (w *c14RichWriter) ReadFrom(r io.Reader) (int64, error) {
+	if err := w.note("ReadFrom", 0); err != nil {
+		return 0, err
+	}
+	return w.buf.ReadFrom(r)
+}
+func (w *c14RichWriter) Flush() error { return w.note("Flush", 0) }
+func (w *c14RichWriter) Sync() error  { return w.note("Sync", 0) }
+func (w *c14RichWriter) Close() error { return w.note("Close", 0) }
 
 type c14Result struct {
 	out    string
@@ -291,6 +338,79 @@ func c14Run(c *C) {
 			c.Fail("writer-received-foreign-bytes", D{"files": p.files, "entry": "ExecuteWriterUnbuffered", "writer_fails_at_write": j, "accepted": q(truncStr(r.out, 300))})
 			return
 		}
+	}
+	// the caller's writer may offer more than Write (WriteString, Flush, ReadFrom ... like *bufio.Writer, *os.File,
+	// http.ResponseWriter wrappers): ExecuteWriter treats it like any other writer - nothing reaches it when the
+	// execution fails, its error comes back, and a good run delivers exactly F
+	{
+		ks := []int{0}
+		if M > 0 {
+			ks = append(ks, M, 1+c.R.Intn(M))
+		}
+		for _, k := range ks {
+			for kind := 0; kind < 2; kind++ {
+				set, _ := newSet(p.files)
+				tpl, err := set.FromFile("/main.tpl")
+				if err != nil {
+					break
+				}
+				rich := &c14RichWriter{}
+				var w io.Writer = rich
+				var bw *bufio.Writer
+				if kind == 1 {
+					bw = bufio.NewWriterSize(rich, 16+c.R.Intn(5000))
+					w = bw
+				}
+				tk := &c14Ticker{failAt: k}
+				e := tpl.ExecuteWriter(tk.ctx(), w)
+				c.Eval(1)
+				d := D{"files": p.files, "failing_call": k, "writer": []string{"writer with Write/WriteString/WriteByte/WriteRune/ReadFrom/Flush/Sync/Close", "*bufio.Writer"}[kind], "calls_seen_by_the_writer": rich.calls, "error": errStr(e)}
+				if k > 0 {
+					buffered := 0
+					if bw != nil {
+						buffered = bw.Buffered()
+					}
+					if e == nil {
+						c.Fail("injected-error-lost", d)
+						return
+					}
+					if len(rich.calls) != 0 || buffered != 0 {
+						d["bytes_pending_in_bufio"] = buffered
+						c.Fail("ExecuteWriter-wrote-before-failing", d)
+						return
+					}
+					continue
+				}
+				if bw != nil {
+					bw.Flush()
+				}
+				if e != nil || rich.buf.String() != F {
+					d["received"] = q(truncStr(rich.buf.String(), 400))
+					d["expected"] = q(truncStr(F, 400))
+					c.Fail("variants-disagree", d)
+					return
+				}
+				// the same writer, now broken: its error must come back
+				if len(F) > 0 {
+					rich2 := &c14RichWriter{err: writerErr}
+					var w2 io.Writer = rich2
+					if kind == 1 {
+						w2 = bufio.NewWriterSize(rich2, 16) // smaller than most outputs: the sink's error surfaces during the copy or not at all
+					}
+					e2 := tpl.ExecuteWriter((&c14Ticker{}).ctx(), w2)
+					c.Eval(1)
+					if kind == 0 && !errors.Is(e2, writerErr) {
+						c.Fail("writer-error-not-returned", D{"files": p.files, "writer": d["writer"], "calls_seen_by_the_writer": rich2.calls, "error": errStr(e2)})
+						return
+					}
+					if kind == 1 && len(F) > 16 && !errors.Is(e2, writerErr) {
+						c.Fail("writer-error-not-returned", D{"files": p.files, "writer": "*bufio.Writer (16 bytes) over a failing sink", "output_bytes": len(F), "error": errStr(e2)})
+						return
+					}
+				}
+			}
+		}
+		c.Cover("rich_writers")
 	}
 	// a writer that fails only after the k-th successful execution error (mixed)
 	var sink bytes.Buffer
